@@ -90,7 +90,8 @@ PROPS = {
         trusted_base=["close-code sets must_accept / must_reject as read from RFC 6455 7.4 (DESIGN.md section 3)"],
         assumptions=[], not_decided=[]),
     "C06": dict(
-        functions=[U + "_validate_utf8", U + "validate_utf8", A + "ABNF.validate", K + "WebSocket.recv_data_frame", K + "WebSocket.recv"],
+        functions=[U + "_validate_utf8", U + "validate_utf8", A + "ABNF.validate", K + "WebSocket.recv_data_frame", K + "WebSocket.recv",
+                   A + "frame_buffer.recv_frame"],
         lemmas=["lemma:utf8.trap_absorbing"],
         trusted_base=["spec automaton generated from Unicode 15 Table 3-7 (contracts/spec.py TABLE_3_7)",
                       "induction scheme behind the trap-absorption axiom (its step lemma L-TRAP is discharged)",
@@ -147,7 +148,8 @@ PROPS = {
         assumptions=["timing lemmas are proved over the exact predicate of check() (its contract), not over thread interleavings"],
         not_decided=["interleavings of the ping thread with the reading loop; real scheduling latency"]),
     "C09": dict(
-        functions=[HSK + "_validate", HSK + "_get_resp_headers", HSK + "handshake", HK + "read_headers", K + "WebSocket.connect", SK + "recv_line"],
+        functions=[HSK + "_validate", HSK + "_get_resp_headers", HSK + "handshake", HK + "read_headers", K + "WebSocket.connect", SK + "recv_line",
+                   K + "create_connection"],
         lemmas=[], bounded=[],
         trusted_base=[T_TRANSPORT, "hashlib.sha1 / base64 / hmac.compare_digest are uninterpreted functions (compare_digest = equality)",
                       "token lists of Upgrade / Connection are abstracted by the predicate has_token (comma separated, trimmed, case-folded tokens)",
@@ -173,7 +175,7 @@ PROPS = {
     "C17": dict(
         functions=[HK + "read_headers", SK + "recv_line", SK + "recv", HSK + "_get_resp_headers", HSK + "_validate", HSK + "handshake", K + "WebSocket.connect",
                    A + "frame_buffer.recv_strict", A + "frame_buffer.recv_frame", A + "ABNF.validate", K + "WebSocket.recv_data_frame", K + "WebSocket.recv",
-                   PA + "WebSocketApp._get_close_args", PA + RFN + "read", K + "WebSocket.close", U + "validate_utf8", U + "_validate_utf8"],
+                   PA + "WebSocketApp._get_close_args", PA + RFN + "read", K + "WebSocket.close", U + "validate_utf8", U + "_validate_utf8", K + "create_connection"],
         lemmas=[], bounded=[],
         trusted_base=[T_TRANSPORT, "A-UTF8 (bytes.decode raises exactly on ill-formed input), A-PACK (struct.unpack needs the exact length)"],
         assumptions=["every partial operation (index, key lookup, int(), decode, unpack, tuple unpacking, attribute of None) is a path fork: the failing side "
